@@ -40,9 +40,25 @@ def pkPropertiesOK (pk : Json) : Bool :=
 
 def purposes (pk : Json) : List String := stringArray (pk.get? "purposes")
 
+/-- every entry of a list value is a string / an object: the typed accessors skip entries of
+    another JSON type, and since the D31 repair a list with a skipped entry is refused -/
+def allStrings : Json → Bool
+  | .arr xs => xs.all fun x => x.str?.isSome
+  | _ => false
+
+def allObjects : Json → Bool
+  | .arr xs => xs.all isObjB
+  | _ => false
+
+/-- a `purposes` member that is a list has strings only -/
+def purposesAllStrings (pk : Json) : Bool :=
+  match pk.get? "purposes" with
+  | some (.arr xs) => allStrings (.arr xs)
+  | _ => true
+
 /-- `validateKeyPurposes` -/
 def purposesOK (pk : Json) : Bool :=
-  !(hasMember pk "purposes" && (purposes pk).isEmpty) &&
+  !(hasMember pk "purposes" && (purposes pk).isEmpty) && purposesAllStrings pk &&
   !((purposes pk).length > Expected.allowedPurposes.length) &&
   (purposes pk).all Expected.allowedPurposes.contains
 
@@ -169,6 +185,12 @@ deriving DecidableEq, Repr
 
 def ofBool (b : Bool) : Verdict := if b then .ok else .err
 
+/-- a `publicKeys` / `services` member of a replace document: absent, `null`, or a list of objects -/
+def replaceMemberOK : Option Json → Bool
+  | none => true
+  | some .null => true
+  | some v => allObjects v
+
 /-- `patchvalidator.Validate` -/
 def validate (orc : UriOracle) (p : Json) : Verdict :=
   match getAction p, getValue p with
@@ -177,6 +199,7 @@ def validate (orc : UriOracle) (p : Json) : Verdict :=
       match value with
       | .obj kvs =>
         ofBool ((kvs.map (·.1)).all Expected.replaceAllowedMembers.contains &&
+          replaceMemberOK (value.get? "publicKeys") && replaceMemberOK (value.get? "services") &&
           publicKeysOK (objectEntries (value.get? "publicKeys")) &&
           servicesOK orc (objectEntries (value.get? "services")))
       | _ => .err
@@ -185,13 +208,13 @@ def validate (orc : UriOracle) (p : Json) : Verdict :=
       else match ietfVerdict ((value.arr?).getD []) with
         | .ok => .ok | .err => .err | .panic => .panic
     else if action = "add-public-keys" then
-      ofBool (requiredArray (some value) && publicKeysOK (objectEntries (some value)))
+      ofBool (requiredArray (some value) && allObjects value && publicKeysOK (objectEntries (some value)))
     else if action = "remove-public-keys" ∨ action = "remove-services" then
-      ofBool (requiredArray (some value) && (stringArray (some value)).all validID)
+      ofBool (requiredArray (some value) && allStrings value && (stringArray (some value)).all validID)
     else if action = "add-services" then
-      ofBool (requiredArray (some value) && servicesOK orc (objectEntries (some value)))
+      ofBool (requiredArray (some value) && allObjects value && servicesOK orc (objectEntries (some value)))
     else if action = "add-also-known-as" ∨ action = "remove-also-known-as" then
-      ofBool (requiredArray (some value) && akaOK orc (stringArray (some value)))
+      ofBool (requiredArray (some value) && allStrings value && akaOK orc (stringArray (some value)))
     else .err
   | _, _ => .err
 
